@@ -277,6 +277,7 @@ class C03(Prop):
         s.append(("corpus-elements", S.corpus_d(("RR", "Question", "DomainName"))))
         s.append(("over-acceptance", overaccept_cases(rng)))
         s.append(("guards", guard_cases()))
+        s.append(("names-through-pointers", overlong_via_pointer()))
         # the same inputs as W cases: the "model" column is then the Coq reference decoder Spec/Wire.v
         w = []
         for name, cs in s:
@@ -408,6 +409,7 @@ class C04(Prop):
         # near-miss inputs too: whatever the Coq reference decoder accepts, the library must accept with the same value
         w_ += ["W" + c[1:] for c in S.near_miss_d(rng, 100 if tier == "quick" else 1000, per=6)]
         w_ += ["W" + c[1:] for c in guard_cases()]
+        w_ += ["W" + c[1:] for c in overlong_via_pointer()]
         st.append(("coq-reference-decoder", w_))
         return st
 
@@ -524,6 +526,7 @@ class C05(Prop):
              ("values-many-records", S.value_e(rng, n // 10, maxrec=12)),
              ("boundary-values", ["E Dns " + G.canon(m) for m in boundary_messages()]),
              ("nested-names", ["E Dns " + G.canon(nested_names_msg(k)) for k in range(1, 65)]),
+             ("around-0x3FFF", straddle_cases(range(-48, 49, 4) if tier == "quick" else range(-48, 49))),
              ("big", ["E Dns " + G.canon(m) for m in big_messages(rng, [16300, 16500, 30000, 60000] if tier == "quick"
                                                                   else [16000, 16300, 16384, 16500, 30000, 50000, 60000, 64000])])]
         return s
@@ -547,6 +550,17 @@ def name_seq_msg(names, spacer=0, rng=None):
         an = [('RR', 10, ('N', []), 1, 0, ('G', [bytes(spacer)]))]
     return ('Dns', 1, ('F', 0, 0, 0, 0, 0, 0, 0, 0, 0), [], an,
             [('RR', 2, ('N', list(n)), 1, 0, ('G', [('N', list(n2))])) for n, n2 in zip(names[0::2], names[1::2] + [[]])], [])
+
+
+def straddle_cases(deltas):
+    """a shared suffix placed within a few octets of the pointer limit 0x3FFF/0x4000 behind a NULL spacer"""
+    edge = []
+    for delta in deltas:
+        for base in (0x3FFF, 0x4000):
+            spacer = base + delta - 23
+            names = [[b"aaa", b"bbb", b"ccc"], [b"x", b"bbb", b"ccc"], [b"y", b"ccc"], [b"aaa", b"bbb", b"ccc"]]
+            edge.append("E Dns " + G.canon(name_seq_msg(names, spacer)))
+    return edge
 
 
 class C06(Prop):
@@ -619,11 +633,60 @@ class C06(Prop):
                 "several names; distinct by text")
 
 
+def overlong_via_pointer():
+    """names that become over-long (or exactly maximal) only through a pointer: literal prefix + pointer to a
+    literal suffix, bare pointers to maximal names, pointer chains to maximal names, fans into long label runs"""
+    over = []
+    for total in range(248, 262):
+        for split in (1, 60, 120, 200):
+            # suffix placed first (as a stand-alone name at offset 12 in a question), prefix + pointer afterwards
+            def labs(n):
+                out = b""
+                left = n
+                while left > 0:
+                    k = min(63, left - 1)
+                    if k <= 0:
+                        break
+                    out += bytes([k]) + b"a" * k
+                    left -= k + 1
+                return out
+            suf = labs(total - 1 - split) + b"\x00"
+            pre = labs(split)
+            q1 = suf + b"\x00\x01\x00\x01"
+            q2 = pre + b"\xc0\x0c" + b"\x00\x01\x00\x01"
+            over.append(S.d("Dns", msg_wire(qd=[q1, q2])))
+    over.append(S.d("DomainName", b"\xc0\x02" + b"\x01a" * 200 + b"\x00"))
+    over.append(S.d("DomainName", b"\x01b\xc0\x04" + b"\x01a" * 127 + b"\x00"))
+    run = b"\x01a" * 3000 + b"\x00"
+    fanq = [run + b"\x00\x01\x00\x01"] + [struct.pack(">H", 0xC000 | (12 + 2 * i)) + b"\x00\x01\x00\x01" for i in range(0, 300)]
+    over.append(S.d("Dns", msg_wire(qd=fanq)))
+    # exactly maximal (255) and just over (256..258) names reached through a BARE pointer and through a 2-pointer chain
+    for total in range(252, 259):
+        def labs2(n):
+            out = b""
+            left = n
+            while left > 0:
+                k = min(63, left - 1)
+                if k <= 0:
+                    break
+                out += bytes([k]) + b"b" * k
+                left -= k + 1
+            return out
+        full = labs2(total - 1) + b"\x00"
+        q1 = full + b"\x00\x01\x00\x01"
+        q2 = b"\xc0\x0c\x00\x01\x00\x01"
+        q3 = struct.pack(">H", 0xC000 | (12 + len(q1))) + b"\x00\x01\x00\x01"
+        over.append(S.d("Dns", msg_wire(qd=[q1, q2])))
+        over.append(S.d("Dns", msg_wire(qd=[q1, q2, q3])))
+        rr = b"\xc0\x0c" + struct.pack(">HHIH", 2, 1, 5, 2) + b"\xc0\x0c"
+        over.append(S.d("Dns", msg_wire(qd=[q1], an=[rr])))
+    return over
+
+
 # =================================================================================== C07
 
-NAME_COST = 544           # octets examined per name, at most (Proofs/DecNameSpec.v name_cost)
-COST_K = NAME_COST + 16   # per input octet
-COST_C = 2048
+COST_K = 290              # C07_work_linear: cost_of (dec_Dns b) <= 290 * lenN b + 544 (Proofs/DecCostMsg.v)
+COST_C = 544
 
 
 class C07(Prop):
@@ -667,31 +730,7 @@ class C07(Prop):
                 else:
                     buf += b"\x00\x00\x01\x00\x01"
             mazes.append(S.d("Dns", bytes(buf)))
-        # names that become over-long only through a pointer: literal prefix + pointer to a literal suffix
-        over = []
-        for total in range(248, 262):
-            for split in (1, 60, 120, 200):
-                # suffix placed first (as a stand-alone name at offset 12 in a question), prefix + pointer afterwards
-                def labs(n):
-                    out = b""
-                    left = n
-                    while left > 0:
-                        k = min(63, left - 1)
-                        if k <= 0:
-                            break
-                        out += bytes([k]) + b"a" * k
-                        left -= k + 1
-                    return out
-                suf = labs(total - 1 - split) + b"\x00"
-                pre = labs(split)
-                q1 = suf + b"\x00\x01\x00\x01"
-                q2 = pre + b"\xc0\x0c" + b"\x00\x01\x00\x01"
-                over.append(S.d("Dns", msg_wire(qd=[q1, q2])))
-        over.append(S.d("DomainName", b"\xc0\x02" + b"\x01a" * 200 + b"\x00"))
-        over.append(S.d("DomainName", b"\x01b\xc0\x04" + b"\x01a" * 127 + b"\x00"))
-        run = b"\x01a" * 3000 + b"\x00"
-        fanq = [run + b"\x00\x01\x00\x01"] + [struct.pack(">H", 0xC000 | (12 + 2 * i)) + b"\x00\x01\x00\x01" for i in range(0, 300)]
-        over.append(S.d("Dns", msg_wire(qd=fanq)))
+        over = overlong_via_pointer()
         return [("overlong-via-pointer", over),
                 ("pointer-graphs-name", graphs), ("pointer-graphs-question", gq), ("chains-1..64", chains),
                 ("fans", fans), ("mazes", mazes), ("corpus", S.corpus_d(("Dns", "DomainName")))]
@@ -1092,7 +1131,8 @@ class C08(Prop):
             known.append("E Dns " + G.canon(msg(('RR', 64, ex, 1, 0, ('SVCB', 1, ('N', []), [('PRIV', num, data)])))))
         known.append("E Dns " + G.canon(msg(('RR', 64, ex, 1, 0, ('SVCB', 0, ('N', [b"t"]), [('PORT', 80)])))))
         known.append("E Dns " + G.canon(msg(('RR', 65, ex, 1, 0, ('SVCB', 0, ('N', []), [('NODEF',), ('PORT', 1)])))))
-        return [("string-lengths", strings), ("big-rdata-and-messages", big), ("oversized-sections", sections),
+        return [("around-0x3FFF", straddle_cases(range(-48, 49, 4) if tier == "quick" else range(-48, 49))),
+                ("string-lengths", strings), ("big-rdata-and-messages", big), ("oversized-sections", sections),
                 ("known-classes", known), ("valid-values", S.value_e(rng, n)), ("valid-rr", S.value_e_rr(rng, n))]
 
     def nontrivial(self, case, line):
